@@ -13,6 +13,7 @@ let () =
     "cursor", Xcursor.cmd_cursor;
     "loop", Xloop.cmd_loop;
     "ignore", Xloop.cmd_ignore;
+    "isolate", Xloop.cmd_isolate;
     "compile", Xlang.cmd_compile;
     "dp", Xdp.cmd_dp;
     "ctlser", Xdp.cmd_ctlser;
